@@ -1,7 +1,59 @@
 use encoding_rs::Encoding;
 use xhtmlchardet::detect;
 
+/// The value of the encoding pseudo-attribute of an XML declaration at the
+/// very start of 8-bit data, if there is one.
+fn declared_encoding(data: &[u8]) -> Option<String> {
+    let rest = data.strip_prefix(b"<?xml")?;
+    if !rest.first()?.is_ascii_whitespace() {
+        return None;
+    }
+    let end = rest.windows(2).position(|w| w == b"?>")?;
+    let decl = &rest[..end];
+    let skip_space = |mut i: usize| {
+        while decl.get(i).map_or(false, |b| b.is_ascii_whitespace()) {
+            i += 1;
+        }
+        i
+    };
+    let key = b"encoding";
+    let mut from = 0;
+    while let Some(found) = decl[from..].windows(key.len()).position(|w| w == key) {
+        let start = from + found;
+        from = start + key.len();
+        if start == 0 || !decl[start - 1].is_ascii_whitespace() {
+            continue;
+        }
+        // S? '=' S? and then the quoted value
+        let mut i = skip_space(from);
+        if decl.get(i) != Some(&b'=') {
+            continue;
+        }
+        i = skip_space(i + 1);
+        if let Some(quote @ (b'"' | b'\'')) = decl.get(i).copied() {
+            let value = &decl[i + 1..];
+            let len = value.iter().position(|b| *b == quote)?;
+            return Some(String::from_utf8_lossy(&value[..len]).into_owned());
+        }
+    }
+    None
+}
+
 pub fn encoding(data: &[u8], hint: Option<String>) -> Option<&'static Encoding> {
+    // In 8-bit data (possibly behind a UTF-8 byte order mark) only an XML
+    // declaration at the very start can name the encoding. xhtmlchardet
+    // misses a declaration with white space around the "=", and would pick
+    // up an "encoding=" that merely occurs in the content of the document.
+    let body = data.strip_prefix(b"\xEF\xBB\xBF").unwrap_or(data);
+    let eight_bit = !data.starts_with(&[0xFF, 0xFE])
+        && !data.starts_with(&[0xFE, 0xFF])
+        && !body.iter().take(4).any(|b| *b == 0);
+    if eight_bit {
+        return match declared_encoding(body).or(hint) {
+            Some(label) => Encoding::for_label(label.as_bytes()),
+            None => Some(encoding_rs::UTF_8),
+        };
+    }
     let mut cursor = std::io::Cursor::new(data);
     let charsets = detect(&mut cursor, hint).ok()?;
     // no encoding detected
